@@ -14,7 +14,31 @@ RULE = ("tuples of 1-4 polynomial-likes (polynomials, numbers, arrays, lists) wi
 WHICH = ["polynomials", "shape", "indeterminants", "exponents"]
 
 
+def gen_wide(rng, i):
+    """many indeterminates and large exponents: exponent rows that differ only in their leading entries must stay
+    distinct rows of the aligned operands (no row code may overflow)"""
+    d, top = gen.choice(rng, [(9, 255), (10, 255), (5, 65535), (3, 2047), (2, 65536), (4, 65535)])
+    names = list(range(d))
+    ops = []
+    for _ in range(int(rng.integers(2, 4))):
+        rows = set()
+        tail = [0] * (d - 1) + [top]
+        rows.add(tuple(tail))
+        for _ in range(int(rng.integers(1, 4))):
+            r = list(tail)
+            r[int(rng.integers(0, max(d - 1, 1)))] = int(gen.choice(rng, [1, 3, 2 ** int(rng.integers(1, 11))]))
+            if rng.random() < .3:
+                r[-1] = int(rng.integers(0, 3))
+            rows.add(tuple(r))
+        ops.append({"names": names, "shape": [], "dtype": "int64", "kind": "int", "as": "poly",
+                    "terms": [[list(r), [int(rng.integers(1, 6))]] for r in sorted(rows)]})
+    return {"id": i, "kind": "c04", "which": gen.choice(rng, ["exponents", "polynomials"]), "ops": ops,
+            "opts": {"retain_coefficients": False, "retain_names": True}, "wide": True}
+
+
 def gen_case(rng, i):
+    if rng.random() < .04:
+        return gen_wide(rng, i)
     k = int(rng.integers(1, 5))
     common = gen.gen_shape(rng)
     which = gen.choice(rng, WHICH, p=[.4, .2, .2, .2])
